@@ -8,6 +8,7 @@ from abc import ABC
 from abc import abstractmethod
 from typing import TYPE_CHECKING
 from typing import Any
+from typing import AsyncIterable
 from typing import Callable
 from typing import Generic
 from typing import Iterable
@@ -21,6 +22,7 @@ from jsonpath.function_extensions.filter_function import ExpressionType
 
 from .exceptions import JSONPathTypeError
 from .function_extensions import FilterFunction
+from .match import JSONPathMatch
 from .match import NodeList
 from .selectors import Filter as FilterSelector
 from .selectors import ListSelector
@@ -521,6 +523,45 @@ class Path(FilterExpression, ABC):
         # self.path has its own cache
         return
 
+    def _nodes(self, context: FilterContext, obj: object) -> NodeList:
+        """Apply this path to _obj_, keeping the root and extra context of _context_.
+
+        `JSONPath.finditer()` would make _obj_ the root of the sub query, so that a
+        `$` in a nested filter no longer referred to the query argument. Values of
+        any type are a valid start node; selectors select nothing from primitives.
+        """
+        matches: Iterable[JSONPathMatch] = [
+            context.env.match_class(
+                filter_context=context.extra_context,
+                obj=[obj] if self.path.fake_root else obj,
+                parent=None,
+                path=context.env.root_token,
+                parts=(),
+                root=context.root,
+            )
+        ]
+        for selector in self.path.selectors:
+            matches = selector.resolve(matches)
+        return NodeList(matches)
+
+    async def _nodes_async(self, context: FilterContext, obj: object) -> NodeList:
+        """An async version of `_nodes`."""
+
+        async def root_iter() -> AsyncIterable[JSONPathMatch]:
+            yield context.env.match_class(
+                filter_context=context.extra_context,
+                obj=[obj] if self.path.fake_root else obj,
+                parent=None,
+                path=context.env.root_token,
+                parts=(),
+                root=context.root,
+            )
+
+        matches: AsyncIterable[JSONPathMatch] = root_iter()
+        for selector in self.path.selectors:
+            matches = selector.resolve_async(matches)
+        return NodeList([match async for match in matches])
+
 
 class SelfPath(Path):
     """A JSONPath starting at the current node."""
@@ -535,30 +576,10 @@ class SelfPath(Path):
         return "@" + str(self.path)[1:]
 
     def evaluate(self, context: FilterContext) -> object:
-        if isinstance(context.current, str):  # TODO: refactor
-            if self.path.empty():
-                return context.current
-            return NodeList()
-        if not isinstance(context.current, (Sequence, Mapping)):
-            if self.path.empty():
-                return context.current
-            return NodeList()
-
-        return NodeList(self.path.finditer(context.current))
+        return self._nodes(context, context.current)
 
     async def evaluate_async(self, context: FilterContext) -> object:
-        if isinstance(context.current, str):  # TODO: refactor
-            if self.path.empty():
-                return context.current
-            return NodeList()
-        if not isinstance(context.current, (Sequence, Mapping)):
-            if self.path.empty():
-                return context.current
-            return NodeList()
-
-        return NodeList(
-            [match async for match in await self.path.finditer_async(context.current)]
-        )
+        return await self._nodes_async(context, context.current)
 
 
 class RootPath(Path):
@@ -576,12 +597,10 @@ class RootPath(Path):
         return str(self.path)
 
     def evaluate(self, context: FilterContext) -> object:
-        return NodeList(self.path.finditer(context.root))
+        return self._nodes(context, context.root)
 
     async def evaluate_async(self, context: FilterContext) -> object:
-        return NodeList(
-            [match async for match in await self.path.finditer_async(context.root)]
-        )
+        return await self._nodes_async(context, context.root)
 
 
 class FilterContextPath(Path):
@@ -600,15 +619,10 @@ class FilterContextPath(Path):
         return "_" + path_repr[1:]
 
     def evaluate(self, context: FilterContext) -> object:
-        return NodeList(self.path.finditer(context.extra_context))
+        return self._nodes(context, context.extra_context)
 
     async def evaluate_async(self, context: FilterContext) -> object:
-        return NodeList(
-            [
-                match
-                async for match in await self.path.finditer_async(context.extra_context)
-            ]
-        )
+        return await self._nodes_async(context, context.extra_context)
 
 
 class FunctionExtension(FilterExpression):
